@@ -109,6 +109,18 @@ func (op MultiStoreProofOp) Run(args [][]byte) ([][]byte, error) {
 	}
 
 	value := args[0]
+
+	// The root hash below is computed from a map keyed by store name, which keeps the *last*
+	// StoreInfo of a name, while the loop after it checks the *first* one: a proof that names a
+	// store twice would be verified against a hash that never reaches the root.
+	seen := make(map[string]struct{}, len(op.Proof.StoreInfos))
+	for _, si := range op.Proof.StoreInfos {
+		if _, dup := seen[si.Name]; dup {
+			return nil, errors.Errorf("duplicate store name %v in multistore proof", si.Name)
+		}
+		seen[si.Name] = struct{}{}
+	}
+
 	root := op.Proof.ComputeRootHash()
 
 	for _, si := range op.Proof.StoreInfos {
